@@ -252,6 +252,13 @@ def s4(ctx, rep):
     # every place a freshly drawn configuration becomes the result (stored in the returned variable, or returned directly)
     # is dominated by "no exclusion list given" or "the exclusion list does not contain it"
     drawn = set(vars_assigned_from(s, lambda v: isinstance(v, ast.Call) and fn_name(v) == "random_config"))
+    # ... or taken one by one from a (lazy) sequence of such draws
+    is_draw = lambda v: isinstance(v, ast.Call) and fn_name(v) == "random_config"
+    for lp in walk_shallow(s.node):
+        if isinstance(lp, ast.For) and isinstance(lp.target, ast.Name):
+            src_ = deref(s, lp.iter)
+            if isinstance(src_, (ast.GeneratorExp, ast.ListComp)) and is_draw(src_.elt):
+                drawn.add(lp.target.id)
     if not drawn:
         raise AnchorError("sample_random_configuration: no variable assigned from random_config found")
     sites = [n for n in cs.nodes if n.kind in ("stmt", "return") and isinstance(n.ast, (ast.Assign, ast.Return)) and n.ast.value is not None
